@@ -351,11 +351,11 @@ impl Prop for C16 {
                     });
                     continue;
                 }
-                // a server may be listed more than once - but never where it would become a seed, nor may a
-                // seed be repeated: the protocol is stateless, the seed alone tells the master where to go on
+                // a server may be listed more than once, also as the last entry of a page - but no address may
+                // be the last entry of two pages: the seed alone tells the (stateless) master where to go on
                 let last_of_pages: Vec<(Ipv4Addr, u16)> = pages.iter().filter_map(|pg| pg.last().copied()).collect();
                 let earlier: Vec<(Ipv4Addr, u16)> = pages.iter().flatten().copied().filter(|a| !last_of_pages.contains(a)).collect();
-                if repeats && p.len() + 1 < n && !earlier.is_empty() && t.draw(DATA, 6) == 0 {
+                if repeats && !earlier.is_empty() && t.draw(DATA, 6) == 0 {
                     p.push(earlier[t.draw(DATA, earlier.len() as u64) as usize]);
                     continue;
                 }
